@@ -33,7 +33,7 @@ CONSTANTS
 DsName == { DsSeq[k] : k \in 1..Len(DsSeq) }
 DsIdx(n) == CHOOSE k \in 1..Len(DsSeq) : DsSeq[k] = n
 ActNames == {"store", "txn", "tick", "create", "delete", "rename", "gc",
-             "restart", "compact", "dup", "read", "backup", "foreign", "lsm", "reject"}
+             "restart", "compact", "dup", "read", "backup", "foreign", "lsm", "reject", "race"}
 
 VARIABLES
   clock,       \* logical time; every write action happens at clock+1
@@ -343,6 +343,21 @@ Compact(n) ==
   /\ UNCHANGED <<clock, dsInc, nextInc, deletedInc, purgedInc, nextPos,
                  everStored, metaOf, rd, bk>>
 
+\* C12, "writes in flight while compaction runs": a batch is written to the dataset after the compactor has read
+\* the history and before it flushes what it decided (the harness performs the write at the compactor's flush
+\* point).  Compaction removes only duplicates and a write never creates one (Apply skips a version equal to the
+\* current one), so every serial order gives the same result: the deduplicated feed with the batch applied.
+CompactRace(n, b) ==
+  /\ "race" \in Acts /\ Exists(n) /\ n \in Writable /\ WriteOk(n, b)
+  /\ LET i == dsInc[n]
+         r == Apply(Dedup(feed[i], <<>>), nextPos[i], b, clock + 1)
+     IN /\ feed' = [feed EXCEPT ![i] = r[1]]
+        /\ nextPos' = [nextPos EXCEPT ![i] = r[2]]
+        /\ everStored' = [everStored EXCEPT ![i] = @ \cup BatchEnts(b)]
+  /\ clock' = clock + 1
+  /\ Log([a |-> "race", ds |-> n, b |-> b])
+  /\ UNCHANGED <<dsInc, nextInc, deletedInc, purgedInc, metaOf, rd, bk>>
+
 \* a token-carrying reader takes one page of its dataset's feed
 ReadPage(r) ==
   /\ "read" \in Acts /\ Exists(r.ds)
@@ -408,6 +423,7 @@ Next ==
   /\ Steps < MaxSteps
   /\ \/ ("store" \in Acts /\ \E n \in DsName, b \in Batches : StoreBatch(n, b))
      \/ ("reject" \in Acts /\ \E n \in DsName, b \in Batches : Len(b) = 1 /\ RejectBatch(n, b))
+     \/ ("race" \in Acts /\ \E n \in DsName, b \in Batches : Len(b) = 1 /\ CompactRace(n, b))
      \/ ("txn" \in Acts /\ \E n1, n2 \in DsName, x1, x2 \in Ent \X CId : ExecTxn(n1, x1, n2, x2))
      \/ Tick
      \/ \E n \in DsName : CreateDs(n) \/ DeleteDs(n) \/ Compact(n)
@@ -435,6 +451,7 @@ KindsNow ==
       \/ k \in {"delete", "compact", "dup"} /\ LiveNames # {}
       \/ k = "store" /\ LiveNames \cap Writable # {}
       \/ k = "reject" /\ LiveNames \cap Writable # {}
+      \/ k = "race" /\ LiveNames \cap Writable # {}
       \/ k = "txn" /\ Cardinality(LiveNames \cap Writable) >= 2
       \/ k = "create" /\ DeadNames # {} /\ nextInc <= MaxInc
       \/ k = "rename" /\ LiveNames # {} /\ DeadNames # {}
@@ -458,6 +475,8 @@ NextSample ==
                       StoreBatch(a1[1], <<<<a1[2], a1[3]>>, <<a2[2], a2[3]>>>>))
         \/ kind = "reject" /\ \E n \in RE(LiveNames \cap Writable), x \in RE(Ent \X CId) :
                                 RejectBatch(n, <<x>>)
+        \/ kind = "race" /\ \E n \in RE(LiveNames \cap Writable), x \in RE(Ent \X CId) :
+                              CompactRace(n, <<x>>)
         \/ kind = "txn" /\ \E n1 \in RE(LiveNames \cap Writable) : \E n2 \in RE((LiveNames \cap Writable) \ {n1}) :
                              \E x1 \in RE(Ent \X CId), x2 \in RE(Ent \X CId) :
                                IF DsIdx(n1) < DsIdx(n2) THEN ExecTxn(n1, x1, n2, x2) ELSE ExecTxn(n2, x2, n1, x1)
